@@ -29,12 +29,16 @@ LEVEL = 'exploration'
 RULE = ('The C01 problem generator (pool of 1-6 clients with dyadic data, '
         'optimizers with step sizes 2^-j, batching hparams with a fixed integer '
         'seed, 1-3 rounds with fresh cohorts, clients may return) plus the '
-        'relation under test; every cohort holds at least one example. '
+        'relation under test; every cohort holds at least one example (the FedProx '
+        'relations also see rounds without any example). '
         'Non-trivial: some round has >=2 clients of different sizes with a size '
         'not divisible by batch_size, and the history has >=2 rounds.')
 ASSUMPTIONS = [
-    'rng-independent least-squares loss (the differential relations compare two '
-    'algorithms whose key derivations may legitimately differ); batching seed is '
+    'rng-independent least-squares loss for the HypCluster(1) and APFL relations '
+    '(HypCluster spends part of the client key on the cluster-assignment pass, '
+    'APFL is restricted by the statement); the FedProx(0) and MimeLite relations '
+    'are also run with a loss that uses its key (observed and asserted: both hand '
+    'the client key to the local steps as FedAvg does); batching seed is '
     'a fixed integer. The Mime one-step clause is additionally run with a loss '
     'that uses its key (gradient shift g(key) * mean_batch(x)): there only the '
     'consequence "the result does not depend on which local batch was drawn" is '
@@ -71,6 +75,12 @@ def l2_half(params):
 
 
 GRAD_REG = fedjax.grad(c01.per_example_loss, l2_half)
+GRAD_NOISY_REG = fedjax.grad(c01.noisy_per_example_loss, l2_half)
+
+
+def loss_of(case):
+  """The statement restricts only the APFL clause to key-ignoring losses."""
+  return c01.noisy_per_example_loss if case.get('noisy') else c01.per_example_loss
 
 
 def build(case, which):
@@ -82,16 +92,17 @@ def build(case, which):
   with fedjax.for_each_client_backend(c01.backend_of(case['backend'])):
     if which == 'fedavg':
       # (with a regularizer: FedAvg on mean loss + regularizer)
-      return fedjax.algorithms.fed_avg.federated_averaging(
-          GRAD_REG if reg else c01.GRAD[False], copt, sopt, hp)
+      noisy = bool(case.get('noisy'))
+      grad = (GRAD_NOISY_REG if noisy else GRAD_REG) if reg else c01.GRAD[noisy]
+      return fedjax.algorithms.fed_avg.federated_averaging(grad, copt, sopt, hp)
     if which == 'fedprox':
-      return fed_prox_lib.fed_prox(per_example_loss, copt, sopt, hp,
+      return fed_prox_lib.fed_prox(loss_of(case), copt, sopt, hp,
                                    proximal_weight=case['mu'] / 8.0)
     if which == 'hyp1':
-      return hyp_lib.hyp_cluster(per_example_loss, copt, sopt, grads_hparams(case), hp,
+      return hyp_lib.hyp_cluster(loss_of(case), copt, sopt, grads_hparams(case), hp,
                                  regularizer=reg)
     if which == 'mimelite':
-      return mime_lite_lib.mime_lite(per_example_loss, copt, hp, grads_hparams(case),
+      return mime_lite_lib.mime_lite(loss_of(case), copt, hp, grads_hparams(case),
                                      server_learning_rate=1.0, regularizer=reg)
     if which == 'mime':
       return mime_lib.mime(per_example_loss, copt, hp, grads_hparams(case),
@@ -253,13 +264,16 @@ def case_strategy(draw, tier, relation):
     case['pool'][0]['rows'] = [1] * (d + 1)
     sizes[0] = 1
     nonempty = [0]
-  # every cohort must hold at least one example
-  for rnd in case['rounds']:
-    if not any(sizes[i] > 0 for i, _ in rnd):
-      rnd.append([nonempty[0], 11]) if nonempty[0] not in [i for i, _ in rnd] else None
-  case['rounds'] = [r for r in case['rounds'] if any(sizes[i] > 0 for i, _ in r)]
-  if not case['rounds']:
-    case['rounds'] = [[[nonempty[0], 11]]]
+  # every cohort must hold at least one example -- except for the FedProx
+  # relations: FedProx, like FedAvg, must take a round without examples (the
+  # server optimizer still sees a zero mean delta)
+  if relation not in ('fedprox0', 'fedprox_mu'):
+    for rnd in case['rounds']:
+      if not any(sizes[i] > 0 for i, _ in rnd):
+        rnd.append([nonempty[0], 11]) if nonempty[0] not in [i for i, _ in rnd] else None
+    case['rounds'] = [r for r in case['rounds'] if any(sizes[i] > 0 for i, _ in r)]
+    if not case['rounds']:
+      case['rounds'] = [[[nonempty[0], 11]]]
   case['backend'] = draw(st.sampled_from(['jit', 'jit', 'debug', 'pmap:2', 'pmap:3']))
   case['grads_hparams'] = {'batch_size': draw(st.integers(1, 6)), 'buckets': draw(st.integers(1, 3))}
   if case['backend'].startswith('pmap'):
@@ -291,11 +305,20 @@ def case_strategy(draw, tier, relation):
   if relation in ('hyp1', 'mimelite'):
     # both take a regularizer: the counterpart is FedAvg on loss + regularizer
     case['reg'] = draw(st.booleans())
+  if relation in ('fedprox0', 'mimelite'):
+    # a loss that uses its key.  FedProx and MimeLite hand the client key to the
+    # local steps exactly as FedAvg does, so the relation is asserted for such
+    # losses too.  HypCluster spends part of the client key on the
+    # cluster-assignment pass (its local steps legitimately see other keys than
+    # FedAvg's), and the statement itself restricts APFL to key-ignoring
+    # losses: those two relations keep the key-ignoring loss.
+    case['noisy'] = draw(st.integers(0, 2)) == 0
   return case
 
 
 def labels(case):
   return (['relation:' + case['relation']] + (['regularizer'] if case.get('reg') else []) +
+          (['key_dependent_loss'] if case.get('noisy') else []) +
           c01.labels(case))
 
 
